@@ -16,6 +16,10 @@ mod tree;
 mod verifier;
 
 pub use kvs::{KeyValueStore, WriteBatch};
+#[cfg(blue_verif)]
+pub use kvs::VerifState;
+#[cfg(blue_verif)]
+pub use tree::VerifCompaction;
 pub use tree::{CompactionID, LsmTree, NUM_LEVELS};
 pub use verifier::{LsmVerifier, ManifestVerifier};
 
